@@ -154,22 +154,27 @@ class Ctx:
         return True, ax
 
     def _deps(self, prop_file):
-        """transitive .v dependencies (inside theories/) of a property file"""
+        """transitive .v dependencies (inside theories/) of a property file, from coqdep (cached per run)"""
+        if not hasattr(self, '_depgraph'):
+            rc, out = sh("coqdep -Q theories GeosV $(find theories -name '*.v') 2>/dev/null", cwd=COQ, timeout=300)
+            g = {}
+            for line in out.splitlines():
+                if ':' not in line:
+                    continue
+                lhs, rhs = line.split(':', 1)
+                tgt = [t for t in lhs.split() if t.endswith('.vo')]
+                if not tgt:
+                    continue
+                key = tgt[0][len('theories/'):-3]
+                g[key] = [d[len('theories/'):-3] for d in rhs.split() if d.startswith('theories/') and d.endswith('.vo')]
+            self._depgraph = g
         seen, todo = set(), [prop_file]
         while todo:
             f = todo.pop()
             if f in seen:
                 continue
             seen.add(f)
-            p = os.path.join(COQ, 'theories', f + '.v')
-            if not os.path.exists(p):
-                continue
-            for m in re.finditer(r'GeosV\.([A-Za-z0-9_.]+)', open(p).read()):
-                todo.append(m.group(1).replace('.', '/'))
-            for m in re.finditer(r'From GeosV(?:\.([A-Za-z0-9_]+))? Require (?:Import |Export )?([^.]*)\.', open(p).read()):
-                for name in m.group(2).split():
-                    cand = ((m.group(1) + '/') if m.group(1) else '') + name.replace('.', '/')
-                    todo.append(cand)
+            todo += self._depgraph.get(f, [])
         return [f for f in seen if os.path.exists(os.path.join(COQ, 'theories', f + '.v'))]
 
     def _count_obligations(self, prop_file):
@@ -200,7 +205,8 @@ class Ctx:
         self.notes['print_assumptions'] = txt[-4000:]
         ax = set()
         for m in re.finditer(r'^([A-Za-z_][\w.\']*)\s*:', txt, re.M):
-            ax.add(m.group(1))
+            if m.group(1) not in ('Axioms', 'Error', 'Warning', 'File'):
+                ax.add(m.group(1))
         return ax
 
     def hygiene(self, prop_file=None):
